@@ -113,9 +113,9 @@ CHECKS = {
     note=TB + "; functions in tables/cap_reach.json (4 clearing writes: strnset_s, wcsnset_s, wcsfc_s, wcsnorm_compose_s) are not analysed"),
  "C17": dict(
     engine="capcheck",
-    technique="bounded-index obligations on the plane-table loads (cp >> 16 into 17-entry arrays), discharged inside the lookup helper or turned into a precondition that every call site must entail, followed through private helpers to the exported entry points",
+    technique="bounded-index obligations on the plane-table loads (cp >> 16 into 17-entry arrays), discharged inside the lookup helper or turned into a precondition that every call site must entail, followed through private helpers to the exported entry points; interval-partition abstract interpretation of iswfc's comparison tree against the constant folding tables read by towfc_s",
     category="other",
-    text="Decides the clause 'code points above U+10FFFF are rejected rather than used as table indices' for every input string: each plane-table access is bounded where it happens or at all call sites of its helper. Conformance of normalisation and folding to the Unicode standard, idempotence and the iswfc/towfc_s length agreement are value-level over 17k table entries and are not decided.",
+    text="Decides the clause 'code points above U+10FFFF are rejected rather than used as table indices' for every input string: each plane-table access is bounded where it happens or at all call sites of its helper. The iswfc/towfc_s agreement is decided for the multi-character foldings: iswfc touches its argument only through comparisons with constants, so its decision tree is evaluated exactly over the interval partition those constants induce; the code points it announces as 2 resp. 3 characters are exactly the key columns of towfc_s's 2- resp. 3-character tables (88 and 16 entries), the tables are strictly ascending and zero-terminated (the search stops at the first larger key), and a hit stores k+1 elements and returns k. Conformance of normalisation and folding to the Unicode standard, idempotence and the single-character cases (libc iswupper/towlower) are not decided.",
     design_ref="DESIGN.md §3.2, §4 C17",
     note=TB + "; 32-bit wchar_t configuration; one fix: commit in /repo (two crashes on out-of-range code points)"),
  "C06": dict(
